@@ -1,8 +1,236 @@
-(* drv_session.ml -- model-side drivers of work package "session" (see docs/AGENT_GUIDE.md) *)
+(* drv_session.ml -- model-side drivers of work package "session" (see docs/AGENT_GUIDE.md)
+     ss   : two model sessions (c = client, s = server) driven by an operation script (C01, C02, C08)
+     c10  : a client session with n pending opens against a timed event script (C10)
+   Trusted glue only: parsing, the shared payload generator / hash, bookkeeping of wires and logs.
+   Every protocol decision is taken by the extracted functions of module Sess. *)
 open Model
 open Util
 
+let fnv (l : n list) : int =
+  List.fold_left (fun h b -> ((h lxor (int_of_n b)) * 0x01000193) land 0xffffffff) 0x811c9dc5 l
+
+let gen_byte (side : char) (sid : int) (off : int) : int =
+  (sid * 37 + off * 11 + (off lsr 8) * 3 + (if side = 's' then 128 else 0)) land 255
+
+let gen (side : char) (sid : int) (off : int) (len : int) : n list =
+  let rec go i acc = if i < 0 then acc else go (i - 1) (small.(gen_byte side sid (off + i)) :: acc) in
+  go (len - 1) []
+
+let data_tok (b : n list) : string =
+  let len = List.length b in
+  if len <= 64 then "d" ^ hex_of_bytes b else Printf.sprintf "d%d.%08x" len (fnv b)
+
+type side = {
+  name : char;
+  cfg : Sess.cfg;
+  mutable st : Sess.sess;
+  mutable carry : n list;
+  mutable wire : n list list;          (* chunks written since the last relay, newest first *)
+  mutable log : frame list;            (* frames written since the last L, newest first *)
+  mutable shut : bool;                 (* transport writer shut down *)
+  mutable shut_sent : bool;
+  mutable news : int list;             (* NewStream ids since the last N, newest first *)
+  offs : (int, int) Hashtbl.t;
+}
+
+let mk_side name role md5 scheme =
+  let cfg = { Sess.c_role = role; Sess.c_md5 = md5; Sess.c_scheme = scheme } in
+  { name; cfg; st = Sess.init_sess cfg; carry = []; wire = []; log = []; shut = false; shut_sent = false;
+    news = []; offs = Hashtbl.create 8 }
+
+let emit (s : side) (outs : Sess.out list) =
+  List.iter (fun o ->
+      match o with
+      | Sess.Send f ->
+        (match encode f with
+         | Some e -> s.wire <- e :: s.wire; s.log <- f :: s.log
+         | None -> ())
+      | Sess.NewStream sid -> s.news <- int_of_n sid :: s.news
+      | Sess.Closed -> s.shut <- true) outs
+
+let next_payload (s : side) (sid : int) (len : int) : n list =
+  let off = try Hashtbl.find s.offs sid with Not_found -> 0 in
+  Hashtbl.replace s.offs sid (off + len);
+  gen s.name sid off len
+
+let rec take_n k l = if k <= 0 then [] else match l with [] -> [] | x :: r -> x :: take_n (k - 1) r
+let rec drop_n k l = if k <= 0 then l else match l with [] -> [] | _ :: r -> drop_n (k - 1) r
+
+(* cut b into fragments with the given sizes, used cyclically; size 0 = everything that is left *)
+let fragments (sizes : int list) (b : n list) : n list list =
+  let sizes = if sizes = [] then [0] else sizes in
+  let arr = Array.of_list sizes in
+  let rec go i b acc =
+    match b with
+    | [] -> List.rev acc
+    | _ ->
+      let k = arr.(i mod Array.length arr) in
+      if k <= 0 then List.rev (b :: acc)
+      else go (i + 1) (drop_n k b) (take_n k b :: acc) in
+  go 0 b []
+
+let wres_ok = function Sess.WOk -> true | _ -> false
+
+let feed_side (s : side) (chunk : n list) =
+  let ((st', carry'), outs) = Sess.recv s.cfg s.st s.carry chunk in
+  s.st <- st'; s.carry <- carry'; emit s outs
+
+let eof_side (s : side) =
+  let (st', outs) = Sess.recv_eof s.st in
+  s.st <- st'; emit s outs
+
+let drv_ss args =
+  match args with
+  | scheme :: md5 :: _st :: ops ->
+    let scheme = bytes_of_hex scheme and md5 = bytes_of_hex md5 in
+    let c = mk_side 'c' Sess.Client md5 scheme and s = mk_side 's' Sess.Server md5 scheme in
+    let side_of ch = if ch = "c" then c else s in
+    let other x = if x == c then s else c in
+    let out = Buffer.create 256 in
+    let say t = Buffer.add_string out t; Buffer.add_char out ' ' in
+    List.iter (fun op ->
+        match String.split_on_char ':' op with
+        | ["O"; sd] ->
+          let x = side_of sd in
+          let ((st', outs), r) = Sess.coq_open x.st in
+          x.st <- st'; emit x outs;
+          (match r with Some sid -> say (Printf.sprintf "o%d" (int_of_n sid)) | None -> say "o-")
+        | ["W"; sd; sid; len] ->
+          let x = side_of sd in
+          let sid = int_of_string sid in
+          let d = next_payload x sid (int_of_string len) in
+          let (outs, r) = Sess.write_data x.st (n_of_int sid) d in
+          emit x outs; say (if wres_ok r then "w+" else "w-")
+        | [("S" | "A") as kind; sd; sid; k; len] ->
+          let x = side_of sd in
+          let sid = int_of_string sid in
+          let len = int_of_string len in
+          let d = next_payload x sid len in
+          if kind = "A" && len = 0 then begin
+            (* AsyncWriteExt::write_all with an empty buffer does not call poll_write *)
+            say "a+"
+          end else begin
+            let (st', r) = Sess.stream_send x.st (n_of_int sid) (nat_of_int (int_of_string k)) d in
+            x.st <- st';
+            let (st'', outs) = Sess.pump_all x.st in
+            x.st <- st''; emit x outs;
+            say ((if kind = "S" then "s" else "a") ^ (if wres_ok r then "+" else "-"))
+          end
+        | ["H"; sd; sid; k] ->
+          let x = side_of sd in
+          let (st', outs) = Sess.stream_shutdown x.st (n_of_int (int_of_string sid)) (nat_of_int (int_of_string k)) in
+          x.st <- st'; emit x outs; say "h"
+        | ["G"; sd; cmd; sid; data] ->
+          let x = side_of sd in
+          let f = { fcmd = cmd_of_byte (n_of_int (int_of_string cmd)); fsid = n_of_int (int_of_string sid);
+                    fdata = bytes_of_hex data } in
+          let (outs, r) = Sess.write_ctrl x.st f in
+          emit x outs; say (if wres_ok r then "g+" else "g-")
+        | ["R"; sd; data] ->
+          feed_side (side_of sd) (bytes_of_hex data); say "r"
+        | ["X"; sd; sizes] ->
+          let x = side_of sd in
+          let y = other x in
+          let sizes = if sizes = "-" then [] else List.map int_of_string (String.split_on_char ',' sizes) in
+          let bytes = List.concat (List.rev x.wire) in
+          x.wire <- [];
+          List.iter (fun ch -> if ch <> [] then feed_side y ch) (fragments sizes bytes);
+          if x.shut && not x.shut_sent then begin x.shut_sent <- true; eof_side y end;
+          say "x"
+        | ["K"; _; _] -> say "k"
+        | ["Q"; _] -> say "q"
+        | ["D"; sd; sid; k; cap] ->
+          let x = side_of sd in
+          let (st', r) = Sess.read x.st (n_of_int (int_of_string sid)) (nat_of_int (int_of_string k))
+              (n_of_int (int_of_string cap)) in
+          x.st <- st';
+          (match r with
+           | Some (RData b) -> say (data_tok b)
+           | Some REof -> say "e"
+           | Some RPending -> say "p"
+           | None -> say "x")
+        | ["T"; sd] ->
+          let x = side_of sd in
+          let l = List.length x.st.Sess.tbl in
+          say (Printf.sprintf "t%d.%d" l l)
+        | ["C"; sd] ->
+          let x = side_of sd in
+          let (st', outs) = Sess.close x.st in
+          x.st <- st'; emit x outs; say "c"
+        | ["E"; sd] -> eof_side (side_of sd); say "z"
+        | ["Y"; sd; sid; k] ->
+          let x = side_of sd in
+          (match Sess.obj x.st (n_of_int (int_of_string sid)) (nat_of_int (int_of_string k)) with
+           | None -> say "yx"
+           | Some o ->
+             (match o.Sess.synack with
+              | Sess.Pending -> say "yp"
+              | Sess.Resolved Sess.SOk -> say "yo"
+              | Sess.Resolved (Sess.SErr m) -> say (Printf.sprintf "ye%08x" (fnv m))
+              | Sess.Resolved Sess.SClosed -> say "yc"))
+        | ["V"; sd] -> say (Printf.sprintf "v%d" (int_of_n (side_of sd).st.Sess.peer_version))
+        | ["L"; sd] ->
+          let x = side_of sd in
+          let fs = List.rev x.log in
+          x.log <- [];
+          if fs = [] then say "l-"
+          else say ("l" ^ String.concat ","
+                      (List.map (fun f -> Printf.sprintf "%d.%d.%d.%08x" (int_of_n (byte_of_cmd f.fcmd))
+                                    (int_of_n f.fsid) (List.length f.fdata) (fnv f.fdata)) fs))
+        | ["N"; sd] ->
+          let x = side_of sd in
+          let l = List.rev x.news in
+          x.news <- [];
+          if l = [] then say "n-" else say ("n" ^ String.concat "," (List.map string_of_int l))
+        | _ -> say ("?" ^ op)) ops;
+    Buffer.contents out
+  | _ -> "BADCASE"
+
+(* ---------------------------------------------------------------- c10 *)
+(* events: <t>:ack:<sid>:<hexmsg> | <t>:fin:<sid> | <t>:psh:<sid> | <t>:syn:<sid> | <t>:alert | <t>:eof |
+           <t>:rerr | <t>:close | <t>:hb *)
+let drv_c10 args =
+  match args with
+  | nopen :: evs ->
+    let nopen = int_of_string nopen in
+    let cfg = { Sess.c_role = Sess.Client; Sess.c_md5 = []; Sess.c_scheme = [] } in
+    let st = ref (Sess.init_sess cfg) in
+    for _ = 1 to nopen do
+      let ((st', _), _) = Sess.coq_open !st in st := st'
+    done;
+    let parse e =
+      match String.split_on_char ':' e with
+      | [t; "ack"; sid; msg] -> (int_of_string t, 0, Sess.EFrame (Sess.mk SynAck (n_of_int (int_of_string sid)) (bytes_of_hex msg)))
+      | [t; "fin"; sid] -> (int_of_string t, 0, Sess.EFrame (Sess.mk Fin (n_of_int (int_of_string sid)) []))
+      | [t; "psh"; sid] -> (int_of_string t, 0, Sess.EFrame (Sess.mk Push (n_of_int (int_of_string sid)) [small.(1)]))
+      | [t; "syn"; sid] -> (int_of_string t, 0, Sess.EFrame (Sess.mk Syn (n_of_int (int_of_string sid)) []))
+      | [t; "alert"] -> (int_of_string t, 0, Sess.EFrame (Sess.mk Alert N0 [small.(120)]))
+      | [t; "hb"] -> (int_of_string t, 0, Sess.EFrame (Sess.mk HeartRequest N0 []))
+      | [t; "eof"] -> (int_of_string t, 0, Sess.EEof)
+      | [t; "rerr"] -> (int_of_string t, 0, Sess.EEof)
+      | [t; "close"] -> (int_of_string t, 0, Sess.EClose)
+      | _ -> failwith ("bad event " ^ e) in
+    let evs = List.map parse evs in
+    let timers = List.init nopen (fun i -> (30000, 1, Sess.ETimeout (n_of_int (i + 1)))) in
+    let all = List.stable_sort (fun (a, pa, _) (b, pb, _) -> compare (a, pa) (b, pb)) (evs @ timers) in
+    let result sid =
+      let sidn = n_of_int sid in
+      let rec go x = function
+        | [] -> "hang"
+        | (t, _, e) :: r ->
+          let (st', w) = Sess.cstep cfg sidn x e in
+          (match w with
+           | Sess.Done Sess.OOk -> Printf.sprintf "ok@%d" t
+           | Sess.Done (Sess.OErr m) -> Printf.sprintf "srv.%08x@%d" (fnv m) t
+           | Sess.Done Sess.OClosed -> Printf.sprintf "closed@%d" t
+           | Sess.Done Sess.OTimeout -> Printf.sprintf "timeout@%d" t
+           | Sess.Waiting -> go (st', w) r) in
+      go (!st, Sess.Waiting) all in
+    String.concat " " (List.init nopen (fun i -> result (i + 1)))
+  | _ -> "BADCASE"
+
 let dispatch (drv : string) (args : string list) : string option =
-  ignore args;
   match drv with
+  | "ss" -> Some (drv_ss args)
+  | "c10" -> Some (drv_c10 args)
   | _ -> None
